@@ -29,6 +29,7 @@ ASSUMPTIONS = [
     "views passed as graph arguments are views on the same store (foreign Graph objects are C13's business)",
 ]
 PROBES = [
+    "addN-through-BatchAddGraph",
     "shared-triple-removed-from-one-graph",
     "query-existing-empty-graph",
     "query-unknown-graph",
